@@ -367,6 +367,15 @@ def _run_c13(prop, tier):
 
 PROPS["C13"] = {"run": _run_c13}
 
+
+# ------------------------------------------------------------------------------------------ C08 (Engine B, lookup path only)
+def _run_c08(prop, tier):
+	import engine_c08
+	return engine_c08.run_c08(prop, tier)
+
+
+PROPS["C08"] = {"run": _run_c08}
+
 # ------------------------------------------------------------------------------------------ C09 (coverage kernels the filters consult)
 # The filter operations themselves (Box<dyn OperationTrait> + async_trait futures) are out of reach: CBMC cannot resolve the
 # dynamic dispatch and unwinds the operations recursively together with anyhow's drop glue (no verdict in 15 min at the
